@@ -129,9 +129,40 @@ func (ex *Exec) runnable(except *task) []*task {
 	return out
 }
 
-func (ex *Exec) pick(cands []*task) *task {
+func (ex *Exec) pick(cands []*task) *task { return ex.pickAt(cands, false) }
+
+// pickAt chooses the next task. With a pre-emption bound (Config.PreemptBound > 0, CHESS-style)
+// a choice made because the current task blocked or finished is always explored in full, while a
+// choice at a yield point of a task that could continue (cands[0]) may switch away only while
+// fewer than PreemptBound such pre-emptions have been used on the path. Without it the first
+// SchedBound choice points of a path branch and later ones take the default.
+func (ex *Exec) pickAt(cands []*task, isYield bool) *task {
 	if len(cands) == 1 {
 		return cands[0]
+	}
+	if ex.cfg.PreemptBound > 0 {
+		if isYield && ex.preemptions >= ex.cfg.PreemptBound {
+			return cands[0]
+		}
+		if !isYield && ex.schedUsed >= ex.cfg.SchedBound {
+			return cands[0]
+		}
+		if !isYield {
+			ex.schedUsed++
+		}
+		ex.Stats.SchedPoints++
+		alts := make([]int, len(cands))
+		for i := range alts {
+			alts[i] = i
+		}
+		i := ex.choose(alts, "sched")
+		if i >= len(cands) {
+			i = 0
+		}
+		if isYield && i != 0 {
+			ex.preemptions++
+		}
+		return cands[i]
 	}
 	if ex.schedUsed >= ex.cfg.SchedBound {
 		return cands[0]
@@ -201,7 +232,7 @@ func (ex *Exec) yield() {
 			ordered = append(ordered, t)
 		}
 	}
-	next := ex.pick(ordered)
+	next := ex.pickAt(ordered, true)
 	if next != cur {
 		ex.switchTo(next)
 	}
